@@ -1532,8 +1532,10 @@ impl TypeLayout {
     }
 
     pub fn can_be_used_as_list_index(&self) -> bool {
+        // a captured variable has its type wrapped in `CallbackVariable`: look through it,
+        // as the other predicates (`is_numeric`, `supports_negate`, ...) do.
         matches!(
-            self,
+            self.get_type_recursively(),
             TypeLayout::Native(NativeType::Int | NativeType::BigInt)
         )
     }
@@ -1933,7 +1935,7 @@ impl TypeLayout {
     ) -> Result<bool> {
         match self {
             Self::ValidIndexes(end) => ListBound::val_fits_between(end, value),
-            other => Ok(&value.for_type(flags)? == other),
+            other => Ok(value.for_type(flags)?.get_type_recursively() == other),
         }
     }
 
